@@ -49,7 +49,7 @@ CHECKS = {
         "level": "model_checking",
         "technique": "TLA+ code-shaped IOQueue (chunks/offset/length) model-checked to refine a flush-delimited byte-deque spec; real IOQueue operation scripts trace-validated step by step against the spec (set of compatible spec states across drops); pty sessions of the real terminal object judged by PollTrace",
         "text": "TLC proves IOQueueImpl => IOQueueSpec (remaining bytes chunk by chunk, reported length = readable bytes, FIFO, the implementation's drop is one of the drops the property allows) over all write/flush/read/consume/drop sequences within the bound. Thousands of seeded scripts on the real IOQueue are then validated as behaviours of IOQueueSpec, comparing len, chunk count, front slice and every read result after every step. The terminal-level clause (short writes, EAGAIN, draining peer, frames_drop) is judged on real pseudo-terminal sessions instrumented with the verif-hooks events (see C17).",
-        "note": "Queue bound: chunks <= 3/4, bytes <= 5/8 in the model; kernel scheduling of the pty sessions is sampled, not enumerated.",
+        "note": "The render loop itself is run on a pty with a stranded payload (16 quick / 200 thorough sessions) and the received stream must consist of whole frames (FrameStream.tla: begin / end markers alternate). Queue bound: chunks <= 3/4, bytes <= 5/8 in the model; kernel scheduling of the pty sessions is sampled, not enumerated.",
     },
     "C18": {
         "level": "model_checking",
